@@ -18,6 +18,7 @@ package props
 
 import (
 	"fmt"
+	"io"
 	"math/big"
 	"math/rand"
 	"sort"
@@ -60,10 +61,15 @@ type c11Scenario struct {
 	I      int    `json:"i"`
 	J      int    `json:"j"`
 	Seed   int64  `json:"seed"`
+	Hist   string `json:"hist,omitempty"` // "" (empty history) | same | partial | collide: the kind of history the transcript is presented after
 }
 
 func (s c11Scenario) key() string {
-	return fmt.Sprintf("%s|%s|%s|%s|%d,%d", s.Sys, s.Family, s.Size, s.Curve, s.I, s.J)
+	k := fmt.Sprintf("%s|%s|%s|%s|%d,%d", s.Sys, s.Family, s.Size, s.Curve, s.I, s.J)
+	if s.Hist != "" {
+		k += "|after:" + s.Hist
+	}
+	return k
 }
 
 type c11Result struct {
@@ -78,6 +84,12 @@ type c11Result struct {
 	Notes    []string
 	Seconds  float64
 	Demanded bool
+	// histories (ProofHistory.tla)
+	Accepted    []string // the genuine transcripts the real verifier accepted before the presentation
+	Established bool     // every genuine transcript was accepted and the measured relation is the one the row names
+	Rel         string   // relation of the presented transcript to the accepted ones, measured on the byte strings
+	SameCoins   bool     // the commitments of the presented transcript are those of an accepted one
+	Replay      string   // collide: what the real verifier did with the accepted proof presented for the colliding statement
 }
 
 // ------------------------------------------------------------------ crafted moduli (cached per run)
@@ -163,8 +175,69 @@ func c11Run(sc c11Scenario, keys []eckg.LocalPartySaveData, mods *c11Moduli) (re
 	q3, q7 := pcPow(q, 3), pcPow(q, 7)
 	ctxs := fmt.Sprintf("%s / %s / size %s, curve %s, parameter sets %d,%d, session %d bytes", sc.Sys, sc.Family, sc.Size, sc.Curve, sc.I, sc.J, len(sess))
 
+	// histories: libG feeds the genuine prover, libF the prover of the presented transcript - the same coins
+	var libG io.Reader
+	libF := io.Reader(lib)
+	if sc.Hist != "" {
+		libG, libF = pump.NewDRBG(sc.Seed^0x6e0), pump.NewDRBG(sc.Seed^0x6e0)
+	}
+	var accepted []*pcTr
+	histBroken := ""
+	// accept: a genuine transcript (the library's prover on a true statement with its witness) is verified first, in this process
+	accept := func(g *pcTr, what string) {
+		if sc.Hist == "" {
+			return
+		}
+		if g == nil || !g.complete() {
+			histBroken = "the genuine prover produced nothing for " + what
+			return
+		}
+		if g.E == nil && g.EV == nil {
+			g.challenge()
+		}
+		real, pan := g.realVerify()
+		if real != "acc" {
+			histBroken = fmt.Sprintf("the genuine proof (%s) was not accepted by the real verifier: %s %s (completeness is C10's matter)", what, real, core.Short(pan, 80))
+			return
+		}
+		accepted = append(accepted, g)
+		res.Accepted = append(res.Accepted, what)
+	}
+	histWhat := func() string {
+		if sc.Hist == "" {
+			return ""
+		}
+		return fmt.Sprintf(" AFTER it had accepted, in the same process, genuine proof(s) for: %s [history kind %q, measured relation %q, same coins: %v]", strings.Join(res.Accepted, "; "), sc.Hist, res.Rel, res.SameCoins)
+	}
+	histKey := func() string {
+		if sc.Hist == "" {
+			return ""
+		}
+		return "-after-history:" + sc.Hist
+	}
 	// present: the transcript goes to the real verifier; the twin measures what fails
 	present := func(t *pcTr) {
+		if sc.Hist != "" && t.complete() {
+			if t.E == nil && t.EV == nil {
+				t.challenge()
+			}
+			res.Rel = "unrelated"
+			for _, g := range accepted {
+				switch r := c11Rel(g, t); {
+				case r == "same", r == "collide" && res.Rel != "same", r == "partial" && res.Rel == "unrelated":
+					res.Rel = r
+				}
+				if c11SameBytes(c11Commit(g), c11Commit(t)) {
+					res.SameCoins = true
+				}
+			}
+			res.Established = histBroken == "" && len(accepted) > 0 && res.Rel == sc.Hist && (sc.Size != "same_commitments" || res.SameCoins)
+			if histBroken != "" {
+				res.Notes = append(res.Notes, "history not established: "+histBroken)
+			} else if !res.Established {
+				res.Notes = append(res.Notes, fmt.Sprintf("history not established: the relation measured is %q, the row names %q", res.Rel, sc.Hist))
+			}
+		}
 		if !t.complete() {
 			res.Real, res.NoProof = "no-proof", "the prover left parts nil"
 			return
@@ -191,14 +264,14 @@ func c11Run(sc c11Scenario, keys []eckg.LocalPartySaveData, mods *c11Moduli) (re
 				res.Demanded = false
 				return
 			}
-			res.Viols = append(res.Viols, c13Viol{key + ":accepted", fmt.Sprintf("the real verifier ACCEPTS a proof for a statement outside the language [%s]; the specification's guards/equations that fail on it: %v", ctxs, res.Failing)})
+			res.Viols = append(res.Viols, c13Viol{key + ":accepted" + histKey(), fmt.Sprintf("the real verifier ACCEPTS a proof for a statement outside the language [%s]%s; the specification's guards/equations that fail on it: %v", ctxs, histWhat(), res.Failing)})
 		case "panic":
 			if twin == "panic" {
 				res.Notes = append(res.Notes, "challenge 0: the verifier multiplies a point by 0 (predicted by the specification)")
 				res.Demanded = false
 				return
 			}
-			res.Viols = append(res.Viols, c13Viol{key + ":panic", fmt.Sprintf("the real verifier PANICS instead of rejecting [%s]: %s", ctxs, core.Short(pan, 200))})
+			res.Viols = append(res.Viols, c13Viol{key + ":panic" + histKey(), fmt.Sprintf("the real verifier PANICS instead of rejecting [%s]%s: %s", ctxs, histWhat(), core.Short(pan, 200))})
 		default:
 			if twin != "rej" {
 				res.Notes = append(res.Notes, "twin says "+twin+" but the real verifier rejects (recorded as drift)")
@@ -234,6 +307,101 @@ func c11Run(sc c11Scenario, keys []eckg.LocalPartySaveData, mods *c11Moduli) (re
 		return v
 	}
 
+	// genuine proofs for the vendored key of set A that share every other argument with the presented transcript
+	acceptPai := func(k *big.Int) {
+		if sc.Hist == "" {
+			return
+		}
+		var pg paillier.Proof
+		var g *pcTr
+		if pan := pcCall(func() { pg = A.PaillierSK.Proof(k, A.ECDSAPub) }); pan == "" {
+			g = pcNewTr("pai")
+			g.Bound, g.PaiK, g.PaiPt = 1000, k, pcFromEC(A.ECDSAPub)
+			g.I["N"] = A.PaillierSK.N
+			g.fromPai(pg)
+		}
+		accept(g, "the vendored Paillier modulus with the same k and public key")
+	}
+	acceptMod := func() {
+		if sc.Hist == "" {
+			return
+		}
+		var pg *modproof.ProofMod
+		var g *pcTr
+		if pan := pcCall(func() { pg, _ = modproof.NewProof(sess, A.PaillierSK.N, A.PaillierSK.P, A.PaillierSK.Q, libG) }); pan == "" && pg != nil {
+			g = pcNewTr("mod")
+			g.Sess = sess
+			g.I["N"] = A.PaillierSK.N
+			g.fromMod(pg)
+		}
+		accept(g, "the vendored Paillier-Blum modulus with the same session")
+	}
+	acceptFac := func() {
+		if sc.Hist == "" {
+			return
+		}
+		var pg *facproof.ProofFac
+		var g *pcTr
+		sk := A.PaillierSK
+		if pan := pcCall(func() { pg, _ = facproof.NewProof(sess, cv.Ec, sk.N, B.NTildei, B.H1i, B.H2i, sk.P, sk.Q, libG) }); pan == "" && pg != nil {
+			g = pcNewTr("fac")
+			g.Cv, g.Sess = cv, sess
+			g.I["N0"], g.I["NC"], g.I["s"], g.I["t"] = sk.N, B.NTildei, B.H1i, B.H2i
+			g.fromFac(pg)
+		}
+		accept(g, "the vendored balanced modulus with the same session and ring-Pedersen parameters")
+	}
+	// size "same_commitments" (histories): coins beyond their range that reproduce the commitments of a genuine run of the
+	// prover's algorithm. shiftH2(e, M): the exponent of h2 that compensates M more in the exponent of h1 (h1 = h2^Beta).
+	pqB := new(big.Int).Mul(B.P, B.Q)
+	shiftH2 := func(e, M *big.Int) *big.Int {
+		v := new(big.Int).Sub(e, new(big.Int).Mul(M, B.Beta))
+		return v.Mod(v, pqB)
+	}
+	sameCommit := sc.Hist != "" && sc.Size == "same_commitments"
+	if sameCommit && (B.Beta == nil || new(big.Int).Exp(B.H2i, B.Beta, B.NTildei).Cmp(B.H1i) != 0) {
+		res.Inconcl = "the vendored parameter set does not carry the logarithm of h1 to the base h2"
+		return
+	}
+	if sc.Hist == "collide" {
+		if sc.Sys == "pai" {
+			// the construction needs a vendored modulus N for which N >> 8 has a prime factor below 1000: the first such set from I on
+			for d := 0; d < len(keys); d++ {
+				cand := keys[(sc.I+d)%len(keys)]
+				nb := cand.PaillierSK.N.Bytes()
+				if c11SmallFactor(new(big.Int).SetBytes(nb[:len(nb)-1]), 1000) != nil {
+					A = cand
+					res.Notes = append(res.Notes, fmt.Sprintf("parameter set %d", (sc.I+d)%len(keys)))
+					break
+				}
+			}
+		}
+		g, f, note, err := c11Collide(sc, A, B, cv, rng, libG, libF)
+		if err != nil {
+			res.Inconcl = "colliding statements: " + err.Error()
+			return
+		}
+		res.Notes = append(res.Notes, note)
+		accept(g, "a true statement whose arguments give the same byte string - "+note)
+		present(f)
+		if len(accepted) > 0 && f.complete() {
+			// the accepted proof itself, presented for the colliding (false) statement
+			r := c11Replay(g, f)
+			r.challenge()
+			twin := r.outcome(r.vec())
+			real, pan := r.realVerify()
+			res.Replay = real
+			key := fmt.Sprintf("C11:%s:%s", sc.Sys, sc.Family)
+			switch {
+			case real == "acc" && twin != "acc":
+				res.Viols = append(res.Viols, c13Viol{key + ":accepted-replayed-proof-after-history:collide", fmt.Sprintf("the real verifier ACCEPTS, for a statement outside the language, the proof it had accepted for another statement whose arguments give the same byte string [%s; %s]", ctxs, note)})
+			case real == "panic" && twin != "panic":
+				res.Viols = append(res.Viols, c13Viol{key + ":panic-replayed-proof-after-history:collide", fmt.Sprintf("the real verifier PANICS on the proof it had accepted for a colliding statement [%s]: %s", ctxs, core.Short(pan, 160))})
+			}
+		}
+		return
+	}
+
 	switch sc.Sys + "/" + sc.Family {
 	case "sch/wrong_dlog":
 		x := c10Witness("rand", q, rng)
@@ -249,13 +417,24 @@ func c11Run(sc c11Scenario, keys []eckg.LocalPartySaveData, mods *c11Moduli) (re
 		Xs := obs.BaseMul(cv.G, wrong)
 		var pf *schnorr.ZKProof
 		var err error
-		if pan := pcCall(func() { pf, err = schnorr.NewZKProof(sess, x, cv.ecPoint(Xs), lib) }); pan != "" || err != nil || pf == nil {
+		if pan := pcCall(func() { pf, err = schnorr.NewZKProof(sess, x, cv.ecPoint(Xs), libF) }); pan != "" || err != nil || pf == nil {
 			noProof(err, pan)
 			return
 		}
 		t := pcNewTr("sch")
 		t.Cv, t.Sess = cv, sess
 		t.P["X"], t.P["alpha"], t.I["t"] = Xs, pcFromEC(pf.Alpha), pf.T
+		if sc.Hist != "" {
+			var pg *schnorr.ZKProof
+			pcCall(func() { pg, _ = schnorr.NewZKProof(sess, new(big.Int).Mod(wrong, q), cv.ecPoint(Xs), libG) })
+			var g *pcTr
+			if pg != nil {
+				g = pcNewTr("sch")
+				g.Cv, g.Sess = cv, sess
+				g.P["X"], g.P["alpha"], g.I["t"] = Xs, pcFromEC(pg.Alpha), pg.T
+			}
+			accept(g, "the same point X, proven with its discrete logarithm")
+		}
 		present(t)
 	case "schv/wrong_dlog":
 		s, l, r := c10Witness("rand", q, rng), c10Witness("rand", q, rng), c10Witness("rand", q, rng)
@@ -263,23 +442,39 @@ func c11Run(sc c11Scenario, keys []eckg.LocalPartySaveData, mods *c11Moduli) (re
 		R := obs.BaseMul(G, r)
 		V := G.Add(obs.Mul(G, s, R), obs.BaseMul(G, l))
 		Vs, Rv := V, R
+		sg, lg := s, new(big.Int).Set(l) // the witness of the statement (Vs, Rv)
 		switch sc.Size {
 		case "plus1":
 			Vs = G.Add(V, G.Gen())
+			lg = new(big.Int).Mod(new(big.Int).Add(l, pc1), q)
 		case "wrongR": // the verifier holds another R than the prover used
 			Rv = G.Add(R, G.Gen())
+			lg = new(big.Int).Mod(new(big.Int).Sub(l, s), q) // V = s*(Rv - G) + l*G
 		default:
-			Vs = obs.BaseMul(G, c10Witness("rand", q, rng))
+			w := c10Witness("rand", q, rng)
+			Vs = obs.BaseMul(G, w)
+			lg = new(big.Int).Mod(new(big.Int).Sub(w, new(big.Int).Mul(s, r)), q) // w*G = s*R + (w - s*r)*G
 		}
 		var pf *schnorr.ZKVProof
 		var err error
-		if pan := pcCall(func() { pf, err = schnorr.NewZKVProof(sess, cv.ecPoint(Vs), cv.ecPoint(R), s, l, lib) }); pan != "" || err != nil || pf == nil {
+		if pan := pcCall(func() { pf, err = schnorr.NewZKVProof(sess, cv.ecPoint(Vs), cv.ecPoint(R), s, l, libF) }); pan != "" || err != nil || pf == nil {
 			noProof(err, pan)
 			return
 		}
 		t := pcNewTr("schv")
 		t.Cv, t.Sess = cv, sess
 		t.P["V"], t.P["R"], t.P["alpha"], t.I["t"], t.I["u"] = Vs, Rv, pcFromEC(pf.Alpha), pf.T, pf.U
+		if sc.Hist != "" {
+			var pg *schnorr.ZKVProof
+			pcCall(func() { pg, _ = schnorr.NewZKVProof(sess, cv.ecPoint(Vs), cv.ecPoint(Rv), sg, lg, libG) })
+			var g *pcTr
+			if pg != nil && pg.Alpha != nil {
+				g = pcNewTr("schv")
+				g.Cv, g.Sess = cv, sess
+				g.P["V"], g.P["R"], g.P["alpha"], g.I["t"], g.I["u"] = Vs, Rv, pcFromEC(pg.Alpha), pg.T, pg.U
+			}
+			accept(g, "the same points (V, R), proven with a witness that fits them")
+		}
 		present(t)
 	case "dln/wrong_dlog", "dln/h2_outside_group":
 		N, pq := A.NTildei, new(big.Int).Mul(A.P, A.Q)
@@ -305,13 +500,25 @@ func c11Run(sc c11Scenario, keys []eckg.LocalPartySaveData, mods *c11Moduli) (re
 			h2 = pcRandUnit(rng, N)
 		}
 		var pf *dlnproof.Proof
-		if pan := pcCall(func() { pf = dlnproof.NewDLNProof(h1, h2, xp, A.P, A.Q, N, lib) }); pan != "" || pf == nil {
+		if pan := pcCall(func() { pf = dlnproof.NewDLNProof(h1, h2, xp, A.P, A.Q, N, libF) }); pan != "" || pf == nil {
 			noProof(nil, pan)
 			return
 		}
 		t := pcNewTr("dln")
 		t.I["h1"], t.I["h2"], t.I["N"] = h1, h2, N
 		t.fromDln(pf)
+		if sc.Hist != "" {
+			hg := new(big.Int).Exp(h1, x, N)
+			var pg *dlnproof.Proof
+			pcCall(func() { pg = dlnproof.NewDLNProof(h1, hg, x, A.P, A.Q, N, libG) })
+			var g *pcTr
+			if pg != nil {
+				g = pcNewTr("dln")
+				g.I["h1"], g.I["h2"], g.I["N"] = h1, hg, N
+				g.fromDln(pg)
+			}
+			accept(g, "(h1, h1^x, N), proven with x")
+		}
 		present(t)
 	case "dln/iteration_unchecked", "pai/iteration_unchecked", "mod/iteration_unchecked_X", "mod/iteration_unchecked_Z":
 		// an honest proof of a true statement (vendored set), one iteration's response replaced by response + 1
@@ -352,6 +559,7 @@ func c11Run(sc c11Scenario, keys []eckg.LocalPartySaveData, mods *c11Moduli) (re
 			noProof(nil, "the honest prover failed")
 			return
 		}
+		accept(c11Clone(t), "the same statement: the honest proof before one response was replaced")
 		idx := map[string]int{"first": 0, "middle": t.K / 2, "last": t.K - 1}[sc.Size]
 		name := map[string]string{"dln/iteration_unchecked": "t", "pai/iteration_unchecked": "y", "mod/iteration_unchecked_X": "X", "mod/iteration_unchecked_Z": "Z"}[sc.Sys+"/"+sc.Family]
 		mod := t.I["N"]
@@ -388,6 +596,7 @@ func c11Run(sc c11Scenario, keys []eckg.LocalPartySaveData, mods *c11Moduli) (re
 		t.Bound, t.PaiK, t.PaiPt = 1000, k, pcFromEC(A.ECDSAPub)
 		t.I["N"] = N
 		t.fromPai(pf)
+		acceptPai(k)
 		present(t)
 	case "pai/shares_factor_with_totient":
 		pq := mods.get("pai-totient", func(r *rand.Rand) []*big.Int {
@@ -416,6 +625,7 @@ func c11Run(sc c11Scenario, keys []eckg.LocalPartySaveData, mods *c11Moduli) (re
 			return
 		}
 		t := pcBuildPai(N, M, paillier.ProofIters, 1000, nil, k, pcFromEC(A.ECDSAPub))
+		acceptPai(k)
 		present(t)
 	case "mod/prime", "mod/even", "mod/prime_power", "mod/not_blum":
 		half := mods.bits / 2
@@ -452,7 +662,7 @@ func c11Run(sc c11Scenario, keys []eckg.LocalPartySaveData, mods *c11Moduli) (re
 		if useLib {
 			var pf *modproof.ProofMod
 			var err error
-			pan := pcCall(func() { pf, err = modproof.NewProof(sess, N, fs[0].P, fs[1].P, &pcFiniteReader{r: lib, left: 1 << 22}) })
+			pan := pcCall(func() { pf, err = modproof.NewProof(sess, N, fs[0].P, fs[1].P, &pcFiniteReader{r: libF, left: 1 << 22}) })
 			if pan != "" || err != nil || pf == nil {
 				noProof(err, pan)
 				return
@@ -480,11 +690,13 @@ func c11Run(sc c11Scenario, keys []eckg.LocalPartySaveData, mods *c11Moduli) (re
 				}
 			}
 			res.Notes = append(res.Notes, fmt.Sprintf("the library's prover left %d of 80 fourth roots nil; they were set to 1 (their N-th roots were filled in)", filled))
+			acceptMod()
 			present(t)
 			return
 		}
 		t, good := pcModBest(sess, N, fs, modproof.Iterations, rng)
 		res.Notes = append(res.Notes, fmt.Sprintf("best-effort prover: both equations hold in %d of 80 iterations", good))
+		acceptMod()
 		present(t)
 	case "fac/small_factor":
 		bits := map[string]int{"16bit": 16, "64bit": 64, "200bit": 200}[sc.Size]
@@ -494,7 +706,7 @@ func c11Run(sc c11Scenario, keys []eckg.LocalPartySaveData, mods *c11Moduli) (re
 		N0 := new(big.Int).Mul(p, qq)
 		var pf *facproof.ProofFac
 		var err error
-		if pan := pcCall(func() { pf, err = facproof.NewProof(sess, cv.Ec, N0, B.NTildei, B.H1i, B.H2i, p, qq, lib) }); pan != "" || err != nil || pf == nil {
+		if pan := pcCall(func() { pf, err = facproof.NewProof(sess, cv.Ec, N0, B.NTildei, B.H1i, B.H2i, p, qq, libF) }); pan != "" || err != nil || pf == nil {
 			noProof(err, pan)
 			return
 		}
@@ -502,6 +714,7 @@ func c11Run(sc c11Scenario, keys []eckg.LocalPartySaveData, mods *c11Moduli) (re
 		t.Cv, t.Sess = cv, sess
 		t.I["N0"], t.I["NC"], t.I["s"], t.I["t"] = N0, B.NTildei, B.H1i, B.H2i
 		t.fromFac(pf)
+		acceptFac()
 		present(t)
 	case "fac/z_beyond":
 		sk := A.PaillierSK
@@ -511,6 +724,25 @@ func c11Run(sc c11Scenario, keys []eckg.LocalPartySaveData, mods *c11Moduli) (re
 		k := pcCoins{"alpha": al, "beta": pcRandBelow(rng, bound), "mu": pcRandBelow(rng, new(big.Int).Mul(q, NC)), "nu": pcRandBelow(rng, new(big.Int).Mul(q, NC)),
 			"sigma": pcRandBelow(rng, new(big.Int).Mul(new(big.Int).Mul(q, NC), sk.N)), "r": pcRandBelow(rng, new(big.Int).Mul(new(big.Int).Mul(q3, NC), sk.N)),
 			"x": pcRandBelow(rng, new(big.Int).Mul(q3, NC)), "y": pcRandBelow(rng, new(big.Int).Mul(q3, NC))}
+		if sameCommit {
+			// genuine: in-range coins; presented: alpha + bound, with x and r compensating in the exponents of t
+			k["alpha"] = pcRandBelow(rng, bound)
+			g := pcBuildFac(cv, sess, sk.N, NC, B.H1i, B.H2i, sk.P, sk.Q, k)
+			accept(g, "the same modulus: the prover's algorithm with every coin in its range")
+			k2 := pcCoins{}
+			for n, v := range k {
+				k2[n] = v
+			}
+			k2["alpha"] = new(big.Int).Add(k["alpha"], bound)
+			k2["x"] = shiftH2(k["x"], bound)
+			// Q^bound = t^(bound*(q*Beta + nu)) with Q = s^q t^nu
+			qb := new(big.Int).Add(new(big.Int).Mul(sk.Q, B.Beta), k["nu"])
+			rr := new(big.Int).Sub(k["r"], new(big.Int).Mul(bound, qb))
+			k2["r"] = rr.Mod(rr, pqB)
+			present(pcBuildFac(cv, sess, sk.N, NC, B.H1i, B.H2i, sk.P, sk.Q, k2))
+			return
+		}
+		acceptFac()
 		present(pcBuildFac(cv, sess, sk.N, NC, B.H1i, B.H2i, sk.P, sk.Q, k))
 	case "alice/plaintext_beyond_q3":
 		m := bigSize(q3, pk.N)
@@ -520,7 +752,7 @@ func c11Run(sc c11Scenario, keys []eckg.LocalPartySaveData, mods *c11Moduli) (re
 		if pan := pcCall(func() {
 			c, r, err = pk.EncryptAndReturnRandomness(lib, m)
 			if err == nil {
-				pf, err = mta.ProveRangeAlice(cv.Ec, pk, c, B.NTildei, B.H1i, B.H2i, m, r, lib)
+				pf, err = mta.ProveRangeAlice(cv.Ec, pk, c, B.NTildei, B.H1i, B.H2i, m, r, libF)
 			}
 		}); pan != "" || err != nil || pf == nil {
 			noProof(err, pan)
@@ -530,12 +762,52 @@ func c11Run(sc c11Scenario, keys []eckg.LocalPartySaveData, mods *c11Moduli) (re
 		t.Cv, t.N, t.NT, t.H1, t.H2 = cv, pk.N, B.NTildei, B.H1i, B.H2i
 		t.I["c"] = c
 		t.fromAlice(pf)
+		if sc.Hist != "" {
+			m0 := c10Witness("rand", q, rng)
+			var c0, r0 *big.Int
+			var pg *mta.RangeProofAlice
+			var g *pcTr
+			pcCall(func() {
+				var e0 error
+				if c0, r0, e0 = pk.EncryptAndReturnRandomness(lib, m0); e0 == nil {
+					pg, _ = mta.ProveRangeAlice(cv.Ec, pk, c0, B.NTildei, B.H1i, B.H2i, m0, r0, libG)
+				}
+			})
+			if pg != nil {
+				g = pcNewTr("alice")
+				g.Cv, g.N, g.NT, g.H1, g.H2 = cv, pk.N, B.NTildei, B.H1i, B.H2i
+				g.I["c"] = c0
+				g.fromAlice(pg)
+			}
+			accept(g, "a ciphertext of a plaintext below q under the same key and ring-Pedersen parameters")
+		}
 		present(t)
 	case "alice/s1_beyond":
 		NT := B.NTildei
 		r := pcRandUnit(rng, pk.N)
 		k := pcCoins{"alpha": bigSize(q3, nil), "beta": pcRandUnit(rng, pk.N), "gamma": pcRandBelow(rng, new(big.Int).Mul(q3, NT)), "rho": pcRandBelow(rng, new(big.Int).Mul(q, NT))}
-		present(pcBuildAlice(cv, pk.N, NT, B.H1i, B.H2i, pcEnc(pk.N, pc0, r), pc0, r, k))
+		c := pcEnc(pk.N, pc0, r)
+		if sameCommit {
+			// genuine: alpha below q^3; presented: alpha + N (Gamma has order N), gamma compensating in the exponent of h2
+			k["alpha"] = pcRandBelow(rng, q3)
+			accept(pcBuildAlice(cv, pk.N, NT, B.H1i, B.H2i, c, pc0, r, k), "the same ciphertext (of 0): the prover's algorithm with every coin in its range")
+			k2 := pcCoins{"alpha": new(big.Int).Add(k["alpha"], pk.N), "beta": k["beta"], "gamma": shiftH2(k["gamma"], pk.N), "rho": k["rho"]}
+			present(pcBuildAlice(cv, pk.N, NT, B.H1i, B.H2i, c, pc0, r, k2))
+			return
+		}
+		if sc.Hist != "" {
+			var pg *mta.RangeProofAlice
+			var g *pcTr
+			pcCall(func() { pg, _ = mta.ProveRangeAlice(cv.Ec, pk, c, NT, B.H1i, B.H2i, pc0, r, libG) })
+			if pg != nil {
+				g = pcNewTr("alice")
+				g.Cv, g.N, g.NT, g.H1, g.H2 = cv, pk.N, NT, B.H1i, B.H2i
+				g.I["c"] = c
+				g.fromAlice(pg)
+			}
+			accept(g, "the same ciphertext (of 0), proven by the library's prover")
+		}
+		present(pcBuildAlice(cv, pk.N, NT, B.H1i, B.H2i, c, pc0, r, k))
 	case "bob/multiplier_beyond_q3", "bob/mask_beyond_q7", "bobwc/multiplier_beyond_q3", "bobwc/mask_beyond_q7", "bobwc/point_mismatch":
 		NT, h1, h2 := B.NTildei, B.H1i, B.H2i
 		x := c10Witness("rand", q, rng)
@@ -571,13 +843,66 @@ func c11Run(sc c11Scenario, keys []eckg.LocalPartySaveData, mods *c11Moduli) (re
 		t := pcNewTr(sc.Sys)
 		t.Cv, t.Sess, t.N, t.NT, t.H1, t.H2 = cv, sess, pk.N, NT, h1, h2
 		t.I["c1"], t.I["c2"] = c1, c2
+		// histories: a genuine proof for the same c1 (and, for point_mismatch, the same c2) under the same session and parameters
+		acceptBob := func() {
+			if sc.Hist == "" {
+				return
+			}
+			x0, y0, r0, c2g := c10Witness("rand", q, rng), c10Witness("rand", pcPow(q, 5), rng), r, c2
+			what := "the same c1 with a multiplier below q and a mask below q^5"
+			if sc.Family == "point_mismatch" {
+				x0, y0 = x, y
+				what = "the same (c1, c2) with the point that fits the multiplier"
+			} else if pan := pcCall(func() {
+				var cy, cx *big.Int
+				var e0 error
+				if cy, r0, e0 = pk.EncryptAndReturnRandomness(lib, y0); e0 != nil {
+					c2g = nil
+					return
+				}
+				if cx, e0 = pk.HomoMult(x0, c1); e0 != nil {
+					c2g = nil
+					return
+				}
+				if c2g, e0 = pk.HomoAdd(cx, cy); e0 != nil {
+					c2g = nil
+				}
+			}); pan != "" || c2g == nil {
+				accept(nil, what)
+				return
+			}
+			g := pcNewTr(sc.Sys)
+			g.Cv, g.Sess, g.N, g.NT, g.H1, g.H2 = cv, sess, pk.N, NT, h1, h2
+			g.I["c1"], g.I["c2"] = c1, c2g
+			if sc.Sys == "bob" {
+				var pg *mta.ProofBob
+				pcCall(func() { pg, _ = mta.ProveBob(sess, cv.Ec, pk, NT, h1, h2, c1, c2g, x0, y0, r0, libG) })
+				if pg == nil {
+					accept(nil, what)
+					return
+				}
+				g.fromBob(pg)
+			} else {
+				X0 := obs.BaseMul(cv.G, new(big.Int).Mod(x0, q))
+				var pg *mta.ProofBobWC
+				pcCall(func() { pg, _ = mta.ProveBobWC(sess, cv.Ec, pk, NT, h1, h2, c1, c2g, x0, y0, r0, cv.ecPoint(X0), libG) })
+				if pg == nil {
+					accept(nil, what)
+					return
+				}
+				g.fromBob(pg.ProofBob)
+				g.P["X"], g.P["U"] = X0, pcFromEC(pg.U)
+			}
+			accept(g, what)
+		}
 		if sc.Sys == "bob" {
 			var pf *mta.ProofBob
-			if pan := pcCall(func() { pf, err = mta.ProveBob(sess, cv.Ec, pk, NT, h1, h2, c1, c2, x, y, r, lib) }); pan != "" || err != nil || pf == nil {
+			if pan := pcCall(func() { pf, err = mta.ProveBob(sess, cv.Ec, pk, NT, h1, h2, c1, c2, x, y, r, libF) }); pan != "" || err != nil || pf == nil {
 				noProof(err, pan)
 				return
 			}
 			t.fromBob(pf)
+			acceptBob()
 			present(t)
 			return
 		}
@@ -595,12 +920,13 @@ func c11Run(sc c11Scenario, keys []eckg.LocalPartySaveData, mods *c11Moduli) (re
 		}
 		Xs := obs.BaseMul(cv.G, xs)
 		var pw *mta.ProofBobWC
-		if pan := pcCall(func() { pw, err = mta.ProveBobWC(sess, cv.Ec, pk, NT, h1, h2, c1, c2, x, y, r, cv.ecPoint(Xs), lib) }); pan != "" || err != nil || pw == nil {
+		if pan := pcCall(func() { pw, err = mta.ProveBobWC(sess, cv.Ec, pk, NT, h1, h2, c1, c2, x, y, r, cv.ecPoint(Xs), libF) }); pan != "" || err != nil || pw == nil {
 			noProof(err, pan)
 			return
 		}
 		t.fromBob(pw.ProofBob)
 		t.P["X"], t.P["U"] = Xs, pcFromEC(pw.U)
+		acceptBob()
 		present(t)
 	case "bob/s1_beyond", "bob/t1_beyond":
 		NT := B.NTildei
@@ -613,6 +939,42 @@ func c11Run(sc c11Scenario, keys []eckg.LocalPartySaveData, mods *c11Moduli) (re
 			k["alpha"] = bigSize(q3, nil)
 		} else {
 			k["gamma"] = bigSize(q7, nil)
+		}
+		if sameCommit {
+			// genuine: every coin in its range; presented: alpha + N (c1^N is absorbed by beta, h1^N by rho') resp. gamma + N
+			k["alpha"], k["gamma"] = pcRandBelow(rng, q3), pcRandBelow(rng, q7)
+			accept(pcBuildBob(cv, sess, pk.N, NT, B.H1i, B.H2i, c1, c2, pc0, pc0, r, k, nil), "the same (c1, c2 = Enc(0)): the prover's algorithm with every coin in its range")
+			k2 := pcCoins{}
+			for n, v := range k {
+				k2[n] = v
+			}
+			if sc.Family == "s1_beyond" {
+				ci := new(big.Int).ModInverse(new(big.Int).Mod(c1, pk.N), pk.N)
+				if ci == nil {
+					res.Inconcl = "c1 is no unit"
+					return
+				}
+				k2["alpha"] = new(big.Int).Add(k["alpha"], pk.N)
+				k2["beta"] = pcMul(pk.N, k["beta"], ci)
+				k2["rhop"] = shiftH2(k["rhop"], pk.N)
+			} else {
+				k2["gamma"] = new(big.Int).Add(k["gamma"], pk.N)
+				k2["tau"] = shiftH2(k["tau"], pk.N)
+			}
+			present(pcBuildBob(cv, sess, pk.N, NT, B.H1i, B.H2i, c1, c2, pc0, pc0, r, k2, nil))
+			return
+		}
+		if sc.Hist != "" {
+			var pg *mta.ProofBob
+			var g *pcTr
+			pcCall(func() { pg, _ = mta.ProveBob(sess, cv.Ec, pk, NT, B.H1i, B.H2i, c1, c2, pc0, pc0, r, libG) })
+			if pg != nil {
+				g = pcNewTr("bob")
+				g.Cv, g.Sess, g.N, g.NT, g.H1, g.H2 = cv, sess, pk.N, NT, B.H1i, B.H2i
+				g.I["c1"], g.I["c2"] = c1, c2
+				g.fromBob(pg)
+			}
+			accept(g, "the same (c1, c2 = Enc(0)), proven by the library's prover with multiplier 0 and mask 0")
 		}
 		present(pcBuildBob(cv, sess, pk.N, NT, B.H1i, B.H2i, c1, c2, pc0, pc0, r, k, nil))
 	default:
@@ -629,7 +991,10 @@ type c11PaiCase struct {
 	Set  int    `json:"set"`
 }
 
-func c11Paillier(ctx *core.Ctx, keys []eckg.LocalPartySaveData, cov *core.Cov) {
+// prefixOps (ProofHistory!DomRows): the operations for which every out-of-domain call is preceded, in this process, by a call
+// with the congruent in-domain value (v mod N for plaintexts, c mod N^2 for ciphertexts): a domain test that remembers the
+// residues of values that passed must still refuse.
+func c11Paillier(ctx *core.Ctx, keys []eckg.LocalPartySaveData, cov *core.Cov, prefixOps map[string]bool) {
 	lib := pump.NewDRBG(ctx.Seed ^ 0x9a1)
 	rng := rand.New(rand.NewSource(ctx.Seed * 17))
 	type kp struct {
@@ -659,6 +1024,9 @@ func c11Paillier(ctx *core.Ctx, keys []eckg.LocalPartySaveData, cov *core.Cov) {
 			var e error
 			pan := pcCall(func() { v, e = f() })
 			cov.Case("paillier|"+op+"|"+what, true)
+			if prefixOps[op] {
+				cov.Add("paillier_out_of_domain_calls_after_congruent_in_domain_call", 1)
+			}
 			sc := c11PaiCase{op, what, k.set}
 			switch {
 			case pan != "":
@@ -667,16 +1035,29 @@ func c11Paillier(ctx *core.Ctx, keys []eckg.LocalPartySaveData, cov *core.Cov) {
 				ctx.Report("C11:paillier:"+op+":accepts-out-of-domain", fmt.Sprintf("paillier %s returns a value (%v...) for an out-of-domain input (%s) instead of an error", op, core.Short(fmt.Sprint(v), 40), what), sc)
 			}
 		}
+		// the history: the congruent in-domain value goes through the operation first (its result is of no interest)
+		pre := func(op string, f func()) {
+			if prefixOps[op] {
+				pcCall(f)
+			}
+		}
 		for w, m := range outM {
 			m := m
+			m0 := new(big.Int).Mod(m, N)
+			pre("Encrypt", func() { pk.Encrypt(lib, m0) })
 			check("Encrypt", "m="+w, func() (*big.Int, error) { return pk.Encrypt(lib, m) })
+			pre("HomoMult", func() { pk.HomoMult(m0, good) })
 			check("HomoMult", "m="+w, func() (*big.Int, error) { return pk.HomoMult(m, good) })
 		}
 		for w, c := range outC {
 			c := c
+			c0 := new(big.Int).Mod(c, N2)
+			pre("HomoMult", func() { pk.HomoMult(pcB(2), c0) })
 			check("HomoMult", "c="+w, func() (*big.Int, error) { return pk.HomoMult(pcB(2), c) })
+			pre("HomoAdd", func() { pk.HomoAdd(c0, good); pk.HomoAdd(good, c0) })
 			check("HomoAdd", "c1="+w, func() (*big.Int, error) { return pk.HomoAdd(c, good) })
 			check("HomoAdd", "c2="+w, func() (*big.Int, error) { return pk.HomoAdd(good, c) })
+			pre("Decrypt", func() { sk.Decrypt(c0) })
 			check("Decrypt", "c="+w, func() (*big.Int, error) { return sk.Decrypt(c) })
 		}
 		for w, c := range map[string]*big.Int{"0": pcB(0), "N": N, "multiple of P": new(big.Int).Mul(sk.P, pcB(3)), "multiple of Q": new(big.Int).Mul(sk.Q, pcB(5))} {
@@ -801,6 +1182,31 @@ func c11Plan(ctx *core.Ctx, rows []c11Row) []c11Scenario {
 	return scs
 }
 
+// c11PlanHist: the history rows of ProofHistory.tla; quick: one size of every row (rotating with the seed), thorough: every size
+func c11PlanHist(ctx *core.Ctx, rows []c11HRow, base int) []c11Scenario {
+	var scs []c11Scenario
+	pairs := c13Pairs()
+	for i, r := range rows {
+		sizes := r.Sizes
+		if !ctx.Thorough() {
+			sizes = []string{r.Sizes[(i+int(ctx.Seed))%len(r.Sizes)]}
+			if last := r.Sizes[len(r.Sizes)-1]; last == "same_commitments" && sizes[0] != last {
+				sizes = append(sizes, last)
+			}
+		}
+		for k, sz := range sizes {
+			p := pairs[((i*5+k)*7+int(ctx.Seed)*3+1)%len(pairs)]
+			curve := "secp256k1"
+			if r.Sys == "sch" && (i+k+int(ctx.Seed))%2 == 1 {
+				curve = "ed25519"
+			}
+			scs = append(scs, c11Scenario{Sys: r.Sys, Family: r.Family, Trips: r.Trips, Prover: r.Prover, Size: sz, Curve: curve, I: p[0], J: p[1],
+				Seed: ctx.Seed*1000003 + int64(base+len(scs))*13 + 7, Hist: r.Hist})
+		}
+	}
+	return scs
+}
+
 func c11RunAll(scs []c11Scenario, keys []eckg.LocalPartySaveData, mods *c11Moduli, workers int) []*c11Result {
 	out := make([]*c11Result, len(scs))
 	var wg sync.WaitGroup
@@ -872,8 +1278,29 @@ func C11(ctx *core.Ctx) error {
 		}
 		if _, isPai := probe["op"]; isPai {
 			cov := core.NewCov()
-			c11Paillier(ctx, keys, cov)
+			c11Paillier(ctx, keys, cov, map[string]bool{"Encrypt": true, "HomoMult": true, "HomoAdd": true, "Decrypt": true})
 			fmt.Printf("replay: Paillier domain cases re-run (%d cases)\n", cov.Evals)
+			return nil
+		}
+		if _, isTH := probe["toyhist"]; isTH {
+			// the toy histories are a deterministic function of the seed: run them again, in order, in this process
+			seed, _ := probe["seed"].(float64)
+			line, _ := probe["line"].(float64)
+			rounds, _ := probe["rounds"].(float64)
+			if rounds < 1 {
+				rounds = 6
+			}
+			saved := ctx.Seed
+			ctx.Seed = int64(seed)
+			hg := newC11HistGen(int64(seed))
+			hg.histories(int(rounds))
+			if int(line) < 1 || int(line) > len(hg.hl) {
+				return core.Inconcl("replay names toy history line %v of %d", line, len(hg.hl))
+			}
+			l := hg.hl[int(line)-1]
+			fmt.Printf("replay toy history line %d (%s %s %s, relation %s): real verifier %s, specification %s, failing %v\n", int(line), l.T.Sys, l.Step, l.Kind, l.Rel, l.Real, l.Twin, l.Vec.failing())
+			c11JudgeHist(ctx, l, int(line), int(rounds))
+			ctx.Seed = saved
 			return nil
 		}
 		if _, isToy := probe["toy"]; isToy {
@@ -915,28 +1342,121 @@ func C11(ctx *core.Ctx) error {
 	var toyRes pcTraceResult
 	var toyErr error
 	var gen *pcToyGen
+	var hgen *c11HistGen
+	var htRes pcTraceResult
+	var htErr error
 	var wg sync.WaitGroup
 	wg.Add(1)
 	go func() {
 		defer wg.Done()
 		gen = newPcToyGen(ctx.Seed*37 + 11)
 		gen.crafted(ctx.Pick(4, 24))
+		// the toy histories after the history-free toy lines, in the same process
+		hgen = newC11HistGen(ctx.Seed)
+		hgen.histories(ctx.Pick(6, 30))
+		wg.Add(1)
+		go func() {
+			defer wg.Done()
+			htRes, htErr = c11ValidateHist(hgen.hl, 40*time.Minute)
+		}()
 		toyRes, toyErr = pcValidate(gen.lines, 40*time.Minute)
 	}()
 
-	// Paillier domain guards (cheap) while TLC works
-	c11Paillier(ctx, keys, cov)
-
+	// the history model and its catalogue, next to the guard classification
+	var hl *c11HistTLC
+	var hlErr error
+	histDone := make(chan struct{})
+	go func() {
+		defer close(histDone)
+		hl, hlErr = c11RunHistTLC(ctx.Thorough())
+	}()
 	tl, err := c11RunTLC(ctx)
+	<-histDone
 	if err != nil {
 		wg.Wait()
 		return core.Inconcl("ProofGuards.tla: %v", err)
 	}
 	scs := c11Plan(ctx, tl.Rows)
+	if hlErr != nil {
+		wg.Wait()
+		return core.Inconcl("%v", hlErr)
+	}
+	// Paillier domain guards (cheap), each out-of-domain call after the congruent in-domain one (rows of ProofHistory.tla)
+	prefixOps := map[string]bool{}
+	for _, r := range hl.DomRows {
+		prefixOps[r["op"]] = true
+	}
+	if len(prefixOps) != 4 {
+		wg.Wait()
+		return core.Inconcl("ProofHistory.tla printed %d domain rows, 4 expected", len(prefixOps))
+	}
+	c11Paillier(ctx, keys, cov, prefixOps)
+	// phase 1: every family on verifiers that have accepted nothing in this process; phase 2: the histories
 	t0 := time.Now()
 	results := c11RunAll(scs, keys, mods, pcWorkers())
 	realWall := time.Since(t0).Seconds()
+	t0 = time.Now()
+	hscs := c11PlanHist(ctx, hl.Rows, len(scs))
+	hresults := c11RunAll(hscs, keys, mods, pcWorkers())
+	histWall := time.Since(t0).Seconds()
 	wg.Wait()
+
+	// ---- histories: verdicts and vacuity (a row counts only if its history was established: the genuine proofs were
+	// accepted by the real verifier and the relation measured on the byte strings is the one the row names)
+	type histStat struct {
+		Cases, Established, Rejected, SameCoins, NoProof, NotJudged, ReplayRejected int
+	}
+	hist := map[string]*histStat{}
+	for _, r := range hresults {
+		if r.Inconcl != "" {
+			return core.Inconcl("history %s could not be built or observed: %s", r.Sc.key(), r.Inconcl)
+		}
+		report(r)
+		k := r.Sc.Sys + "/" + r.Sc.Family + " after " + r.Sc.Hist
+		st := hist[k]
+		if st == nil {
+			st = &histStat{}
+			hist[k] = st
+		}
+		st.Cases++
+		cov.Case(r.Sc.key(), r.Real != "no-proof")
+		switch {
+		case r.Real == "no-proof":
+			st.NoProof++
+			ctx.Note("no proof obtained: %s: %s", r.Sc.key(), r.NoProof)
+		case !r.Demanded:
+			st.NotJudged++
+		case r.Real == "rej":
+			st.Rejected++
+		}
+		if r.Established && r.Real != "no-proof" {
+			st.Established++
+		}
+		if r.SameCoins {
+			st.SameCoins++
+		}
+		if r.Replay == "rej" {
+			st.ReplayRejected++
+		}
+		for _, n := range r.Notes {
+			if strings.Contains(n, "not established") {
+				ctx.Note("drift: %s: %s", r.Sc.key(), n)
+			}
+		}
+	}
+	var histVacuous []string
+	for _, row := range hl.Rows {
+		k := row.Sys + "/" + row.Family + " after " + row.Hist
+		if st := hist[k]; st == nil || st.Established == 0 {
+			histVacuous = append(histVacuous, k)
+		}
+	}
+	for i, r := range hresults {
+		if i%3 == 0 {
+			cov.Sample(map[string]any{"scenario": r.Sc, "accepted_first": r.Accepted, "relation_measured": r.Rel, "same_coins": r.SameCoins, "real_verifier": r.Real,
+				"replayed_proof": r.Replay, "specification_says_failing": r.Failing, "notes": r.Notes, "seconds": r.Seconds}, 40)
+		}
+	}
 
 	// ---- real-size verdicts and vacuity
 	type famStat struct {
@@ -1030,8 +1550,50 @@ func C11(ctx *core.Ctx) error {
 		}
 		cov.AddTraces(toyRes.Lines)
 	}
+	// ---- toy histories
+	if htErr != nil {
+		return core.Inconcl("toy history machinery failed: %v", htErr)
+	}
+	hToy := map[string]int{}
+	hToyDegenerate := 0
+	for i, l := range hgen.hl {
+		hToy[l.T.Sys+":"+l.Step+":"+l.Rel+":"+l.Real]++
+		if l.Real != l.Twin {
+			ctx.Note("drift: toy history %s %s (%s): the real verifier says %s, the harness's transcription %s (failing %v)", l.T.Sys, l.Step, l.Kind, l.Real, l.Twin, l.Vec.failing())
+		}
+		if c11JudgeHist(ctx, l, i+1, ctx.Pick(6, 30)) {
+			hToyDegenerate++
+		}
+	}
+	if !htRes.Accepted {
+		if len(ctx.Violations()) > 0 {
+			ctx.Note("ProofHistory_Trace.tla does not explain toy history line %d (%s): consistent with the violation(s) reported above", htRes.FailLine, core.Short(htRes.FailText, 200))
+		} else {
+			return core.Inconcl("ProofHistory_Trace.tla does not explain toy history line %d of %d: %s", htRes.FailLine, htRes.Lines, core.Short(htRes.FailText, 300))
+		}
+	} else {
+		if !htRes.SelfTest {
+			return core.Inconcl("self test: TLC did not refuse the toy history line whose relation to the accepted lines the harness had falsified - the binding is not effective")
+		}
+		cov.AddTraces(htRes.Lines)
+	}
+	// every relation must have been presented (and rejected) at toy size at least once, by whichever system
+	for _, rel := range []string{"same", "collide", "partial"} {
+		n := 0
+		for k, v := range hToy {
+			if strings.Contains(k, ":present:"+rel+":rej") {
+				n += v
+			}
+		}
+		if n == 0 && len(ctx.Violations()) == 0 {
+			return core.Inconcl("toy histories: no rejected presentation of relation %q was produced", rel)
+		}
+	}
 	if len(vacuous) > 0 && len(ctx.Violations()) == 0 {
 		return core.Inconcl("families never exercised (no presented transcript fails the guard the catalogue names): %v", vacuous)
+	}
+	if len(histVacuous) > 0 && len(ctx.Violations()) == 0 {
+		return core.Inconcl("histories never established (genuine proof not accepted, or the relation to the presented transcript is not the one the catalogue names): %v", histVacuous)
 	}
 
 	var mcOut []map[string]any
@@ -1046,6 +1608,18 @@ func C11(ctx *core.Ctx) error {
 	cov.Set("real_size_cases", len(results))
 	cov.Set("real_size_wall_s", realWall)
 	cov.Set("families", fam)
+	cov.AddMC(hl.Res.Distinct, hl.Res.Generated)
+	cov.Set("history_model", map[string]any{"distinct": hl.Res.Distinct, "generated": hl.Res.Generated, "wall_s": hl.Res.Wall, "wrong_designs_exposed_by": hl.Exposed})
+	cov.Set("history_rows", len(hl.Rows))
+	cov.Set("history_cases", len(hresults))
+	cov.Set("history_wall_s", histWall)
+	cov.Set("histories", hist)
+	cov.Set("toy_history_lines_validated", htRes.Lines)
+	cov.Set("toy_history_outcomes", hToy)
+	cov.Set("toy_history_genuine_not_accepted", hgen.notAcc)
+	cov.Set("toy_history_false_statements_accepted_as_the_specification_predicts", hToyDegenerate)
+	cov.Set("toy_history_trace_tlc_wall_s", htRes.Res.Wall)
+	cov.Set("self_test_falsified_relation_refused", htRes.SelfTest)
 	cov.Set("toy_lines_validated", toyRes.Lines)
 	cov.Set("toy_outcomes", toyOut)
 	cov.Set("toy_guard_violated_alone_and_rejected_by_real_verifier", toyAlone)
